@@ -59,8 +59,38 @@ fn run_case(_kind: &str, idx: u64, rng: &mut Rng, mon: &mut Mon, _tier: Tier) {
     };
     let kin = build(bare, &layers);
     let sname = stack_name(&layers);
-    let q = joints_uniform(rng, PI);
-    let target = ref_forward(&rp, &layers, &q);
+    let mut q = joints_uniform(rng, PI);
+    let mut target = ref_forward(&rp, &layers, &q);
+    // a twelfth of the poses: the wrist centre sits EXACTLY on the joint-2 axis of one shoulder branch (an
+    // intermediate distance of that branch is an exact zero); the other shoulder branch reaches it normally.
+    // The reference configuration comes from the 6-DOF closed form of the same geometry.
+    if rng.bool(0.08) && rp.a1 != 0.0 {
+        let mut probe = [0.0; 6];
+        probe[0] = rng.range(-PI, PI);
+        let o2 = chain(&rp, &probe)[1].p;
+        let r = random_rotation(rng);
+        let flange = Fr { r, p: add(o2, scale(col(&r, 2), rp.c4)) };
+        let mut rp6 = rp;
+        rp6.dof = 6;
+        if rp6.signs[5] == 0 {
+            rp6.signs[5] = 1;
+        }
+        let sols6 = rs_opw_kinematics::kinematic_traits::Kinematics::inverse(&OPWKinematics::new(to_params(&rp6)), &fr_to_iso(&flange));
+        if let Some(s6) = sols6.first() {
+            q = *s6;
+            let mut t = flange;
+            for l in &layers {
+                match l {
+                    Layer::Tool(x) | Layer::Frame(x) => t = t.mul(x),
+                    Layer::Base(x) => t = x.mul(&t),
+                    _ => {}
+                }
+            }
+            target = t;
+            mon.count("wrist_centre_exactly_on_a_joint2_axis");
+        }
+    }
+    let (q, target) = (q, target);
     let pose = fr_to_iso(&target);
     let j6 = *rng.pick(&[0.0, PI, -PI, 1e3, rng.clone().range(-2.0 * PI, 2.0 * PI), q[5]]);
     let _ = rng.next_u64();
@@ -71,6 +101,19 @@ fn run_case(_kind: &str, idx: u64, rng: &mut Rng, mon: &mut Mon, _tier: Tier) {
         prev[j] += rng.range(-0.3, 0.3);
     }
     prev[5] = j6;
+    // a tenth of the previous vectors is the current posture of a reorientation in place: an answer for the
+    // SAME tool point with the axis turned by 5..30 degrees
+    if !sentinel && rng.bool(0.1) {
+        let ax = col(&random_rotation(rng), 0);
+        let turned = Fr { r: Fr::new(axis_angle(ax, rng.range(5.0f64, 30.0).to_radians()), [0.0; 3]).mul(&Fr::new(target.r, [0.0; 3])).r, p: target.p };
+        if let Ok(s) = call(kin.as_ref(), Entry::FiveDof, &fr_to_iso(&turned), &q, j6) {
+            if let Some(p) = s.first() {
+                prev = *p;
+                prev[5] = j6;
+                mon.count("previous_is_same_point_other_axis");
+            }
+        }
+    }
     if sentinel {
         prev = CONSTRAINT_CENTERED;
     }
